@@ -74,8 +74,17 @@ def main():
 
         case_timeout = float(unit.get("case_timeout", 45))
 
+        from asynqmon import tl as _tl
+
+        seen = [-1]
+
         def on_alarm(signum, frame):
-            # a single case ran far beyond its budget: let the parent re-run it alone
+            # no bounded piece of work (program run, sequence, cell: tl.tick()) was completed during a whole
+            # case_timeout: let the parent re-run the case alone. A case that is merely long keeps ticking.
+            if _tl.ACTIVITY[0] != seen[0]:
+                seen[0] = _tl.ACTIVITY[0]
+                signal.setitimer(signal.ITIMER_REAL, case_timeout)
+                return
             try:
                 faulthandler.dump_traceback()
             finally:
@@ -89,6 +98,8 @@ def main():
             if prog_path:
                 with open(prog_path, "w") as pf:
                     pf.write(str(i))
+            _tl.tick()
+            seen[0] = _tl.ACTIVITY[0]
             signal.setitimer(signal.ITIMER_REAL, case_timeout)
 
         r = mod.run_unit(unit, progress)
